@@ -96,6 +96,10 @@ def gen(rng):
         ops.append("api term cx")
     else:
         ops.append("raw x1 ff00")       # reserved packet type: malformed
+    if ops[-1].startswith("disc ") and rng.random() < 0.4:
+        # the DISCONNECT leaves pipelined behind 1-6 QoS 0 publishes in one write and the socket closes at once: a DISCONNECT
+        # that was sent counts, however the broker's reader and handler goroutines interleave (seed C08-3)
+        ops[-1] += f" pre={rng.choice([1, 2, 6])}"
     # what happens during / after the will delay
     after = rng.choice(["wait", "wait", "resume", "fresh", "term", "partial", "partial2"])
     if after == "partial":
